@@ -30,6 +30,9 @@ def enc_num(x) -> list:
         # Not a small dyadic rational.  Division by a non power of two (mean over 3, 1/3 ...) gives a float64 that is
         # the (almost) correctly rounded image of a small rational: snap to it.  Low-precision (float32/16) results of
         # such divisions are NOT within a few float64 ulps of any small rational and leave the exact fragment.
+        if f.denominator <= 2**24 and f.denominator & (f.denominator - 1) == 0 and abs(f.numerator) < LIM:
+            # a dyadic rational with a 9..24-bit denominator: what a float16 / float32 rounding of 1/3, 1/9 ... looks like
+            raise OutOfModel(f"low-precision rounding: {x!r}")
         g = f.limit_denominator(10**4)
         if abs(float(g) - x) <= 1.8e-15 * max(abs(x), 1e-300) and abs(g.numerator) < LIM:
             f = g
